@@ -645,11 +645,11 @@ def universe_entries_s(draw, depth=1):
         if nm in ("s1", "s2", "i1", "S1"):
             k = draw(st.sampled_from(["s", "s", "s", "l"]))
         if k == "s":
-            v = draw(st.sampled_from(["one", "two", "dflt", "7", "0x10", "", "x y", "deep", "t"])) if nm != "i1" else draw(st.sampled_from(["7", "8", "0x10", "bad"]))
+            v = draw(st.sampled_from(["one", "two", "dflt", "7", "0x10", "", "x y", "deep", "t", "One", "ONE", "Dflt", "T"])) if nm != "i1" else draw(st.sampled_from(["7", "8", "0x10", "bad"]))
             return [nm, "s", v]
         if k == "l":
-            return [nm, "l", draw(st.lists(st.sampled_from(["x", "y", "z", ""]), max_size=3))]
-        return [nm, "a", [draw(st.sampled_from(["::1", "::2", "host"])), draw(st.sampled_from(["80", "8080"]))]]
+            return [nm, "l", draw(st.lists(st.sampled_from(["x", "y", "z", "", "X", "Y"]), max_size=3))]
+        return [nm, "a", [draw(st.sampled_from(["::1", "::2", "host", "HOST"])), draw(st.sampled_from(["80", "8080", "http", "HTTP"]))]]
     top = []
     for obj in draw(st.lists(st.sampled_from(["ra", "rb", "stray", "RA"]), max_size=3, unique_by=lambda s: s.lower())):
         ents = [leaf(nm) for nm in draw(st.lists(st.sampled_from(UNIVERSE_NAMES), max_size=5, unique=True))]
